@@ -1909,8 +1909,21 @@ func (s *SweepingProvider) batchReprovide(prefix bitstr.Key) {
 	}
 
 	// Remove all keys matching coveredPrefix from provide queue. No need to
-	// provide them anymore since they are about to be reprovided.
-	s.provideQueue.DequeueMatching(prefix)
+	// provide them separately since they are about to be reprovided. Keys
+	// queued by ProvideOnce are not in the keystore: add those to the batch,
+	// otherwise they would never be advertised.
+	if pending := s.provideQueue.DequeueMatching(prefix); len(pending) > 0 {
+		loaded := make(map[string]struct{}, len(keys))
+		for _, k := range keys {
+			loaded[string(k)] = struct{}{}
+		}
+		for _, k := range pending {
+			if _, ok := loaded[string(k)]; !ok {
+				loaded[string(k)] = struct{}{}
+				keys = append(keys, k)
+			}
+		}
+	}
 	// Remove covered prefix from the reprovide queue, so since we are about the
 	// reprovide the region.
 	s.reprovideQueue.Remove(prefix)
